@@ -11,6 +11,11 @@ impl Clone for PublicKey { #[verifier::external_body] fn clone(&self) -> (r: Sel
 #[verifier::external_body] pub struct Signature { _p: u8 }                      // A3
 #[verifier::external_body] pub struct SocketAddr { _p: u8 }
 #[verifier::external_body] pub struct Utc { _p: u8 }                            // time::Utc
+impl PartialEq for SocketAddr { #[verifier::external_body] fn eq(&self, o: &Self) -> (r: bool) { unimplemented!() } }      // A1: std SocketAddr equality
+impl PartialEqSpecImpl for SocketAddr {
+    open spec fn obeys_eq_spec() -> bool { true }
+    open spec fn eq_spec(&self, o: &Self) -> bool { *self == *o }
+}
 #[verifier::external_body] pub struct AnyhowError { _p: u8 }
 #[verifier::external_body] pub fn anyhow_error() -> AnyhowError { unimplemented!() }
 pub struct Signed<V> { pub msg: V, pub key: PublicKey, pub sig: Signature }      // roles::validator::Signed (fields only)
@@ -77,7 +82,7 @@ pub open spec fn applied(old_m: Map<PublicKey, Signed<NetAddress>>, new_m: Map<P
 
 
 def build(repo):
-    U = Unit("addrs", ["C18"], desc="validator address book", uses="use std::sync::Arc;")
+    U = Unit("addrs", ["C18"], desc="validator address book", uses="use std::sync::Arc;\nuse vstd::std_specs::cmp::*;")
     U.repo = repo
     U.raw(PRELUDE, label="prelude addrs")
     U.item(F_DISC, "struct NetAddress", subs=[("net::SocketAddr", "SocketAddr"), ("time::Utc", "Utc")])
@@ -139,6 +144,41 @@ impl AddrsGuard {
                       ("anyhow::Result<()>", "Result<(), AnyhowError>")],
          subs=[("this.send_replace(validator_addrs);", "this.send_replace(validator_addrs, Ghost(validators), Ghost(data@));   /* W-ghost */")],
          spec="    ensures true,     // the obligation is the precondition of send_replace: a rejected batch is never published\n")
+    U.raw("""
+pub open spec fn spec_val<T>(x: &T) -> T { *x }
+// the node's own validator key (A3): sign_msg produces a validly signed message under the matching public key
+#[verifier::external_body] pub struct SecretKey { _p: u8 }
+impl SecretKey {
+    pub uninterp spec fn pk(&self) -> PublicKey;
+    #[verifier::external_body] pub fn public(&self) -> (r: PublicKey) ensures r == self.pk() { unimplemented!() }
+    #[verifier::external_body] pub fn sign_msg(&self, m: NetAddress) -> (r: Signed<NetAddress>)
+        ensures r.msg == m, r.key == self.pk(), sig_ok(r.msg, r.key, r.sig) { unimplemented!() }
+}
+impl AddrsGuard {
+    // publishing the node's own announcement: one entry changes, it is validly signed by its key, and it is STRICTLY NEWER than the
+    // entry it replaces (the property's replacement rule applied to the local announcement)
+    #[verifier::external_body]
+    pub fn send_replace_announced(&self, v: ValidatorAddrs, Ghost(e): Ghost<Signed<NetAddress>>)
+        requires v.0@ == self.cur().0@.insert(e.key, e), sig_ok(e.msg, e.key, e.sig),
+                 self.cur().0@.contains_key(e.key) ==> newer(e.msg, self.cur().0@[e.key].msg),
+    { unimplemented!() }
+}
+""", label="prelude announce")
+    U.fn(F_VA, "impl ValidatorAddrs :: fn get", wrap="impl ValidatorAddrs", ret="r",
+         header_subs=[("validator::PublicKey", "PublicKey"), ("validator::Signed", "Signed"), ("validator::NetAddress", "NetAddress")],
+         spec="    ensures r.is_some() == self.0@.contains_key(*key), r.is_some() ==> **r.unwrap() == self.0@[*key],\n")
+    U.fn(F_VA, "impl ValidatorAddrsWatch :: fn announce", wrap="impl ValidatorAddrsWatch",
+         header_subs=[("validator::SecretKey", "SecretKey"), ("std::net::SocketAddr", "SocketAddr"), ("time::Utc", "Utc")],
+         subs=[("validator::NetAddress {", "NetAddress {"),
+               ("this.send_replace(validator_addrs);", "this.send_replace_announced(validator_addrs, Ghost(verif_d));   /* W-ghost */"),
+               ("validator_addrs.0.insert(d.key.clone(), d);", "let ghost verif_d = spec_val(&*d); validator_addrs.0.insert(d.key.clone(), d);   /* W-ghost */")],
+         closures=[dict(prefix="|x|", ty="&Arc<Signed<NetAddress>>", ret="verif_v: u64",
+                        spec="requires {p}.msg.version < u64::MAX ensures verif_v > {p}.msg.version")],
+         spec="""
+    // A7-like: the node's own announcement counter has not reached 2^64-1 (it starts at 0 and is incremented by this function only)
+    requires forall|g: AddrsGuard| g.cur().0@.contains_key(key.pk()) ==> #[trigger] g.cur().0@[key.pk()].msg.version < u64::MAX,
+    ensures true,     // the obligation is the precondition of send_replace_announced
+""")
     U.assume("A3: signature verification is an uninterpreted predicate; A2: im::HashMap get/insert as a finite map; A1: HashSet")
     U.assume("NetAddress::is_newer == lexicographic (version, timestamp) is assumed here and checked on the real code by Kani (complete, loop-free)")
     return U
